@@ -29,8 +29,8 @@ EXPLANATION = ("Review summary of multisig PSBTs.  Deductive part: Tx.fee on a 2
                "spec.review of the same bytes, where is_change is the predicate of the property statement.")
 CATEGORY = "other"
 LEVEL_TEXT = ("Mixed: one symbolic proof (fee arithmetic); the change-classification and rejection clauses are checked by bounded-exhaustive "
-              "executable contracts over the property's catalogue quantifier against an independent spec predicate.  The pinned tree violates "
-              "the soundness clause in several ways (see notes/C10_C11.md), so the property does not hold as stated.")
+              "executable contracts over the property's catalogue quantifier against an independent spec predicate.  Tx.fee is proved "
+              "equal to sum(input values) - sum(output amounts) for every number of inputs and outputs (loop invariants).  The defects these checks found on the pinned tree are repaired by fix: commits in /repo (one `fixed:` line each in /verif/KNOWN_FINDINGS.jsonl) (see notes/C10_C11.md).")
 LEVEL_NOTE = ("trusted: pyvc translation (A-ENGINE), spec functions incl. own BIP32/secp256k1 (A-SPEC), CPython builtin contracts (A-BUILTIN), "
               "harness builders; termination not verified")
 JOB_TIMEOUT = {"quick": 240, "thorough": 1500}
